@@ -1,6 +1,8 @@
 """C04 – results depend only on the input text, not on how it is delivered or split.
 
 Decided structurally:
+  C04.components  "the same component list": every Run* call marks the cached component list stale before the engine reads anything, and
+                ListComponents refreshes it iff stale (rule engine shared with C14.components)
   C04.siblings  the three delivery entry points RunString / RunFile / RunAccumulated run the same procedure: equal event
                 sequences (calls on the instance and its engine, field writes) inside the try, equal handler ladders and equal
                 tails, up to the stream construction and the accumulated-lines bookkeeping; AccumulateLine honours the lazy
@@ -68,8 +70,37 @@ def events(body, skip_locals=()):
     return out
 
 
+class _Renamed:
+    """view of a report that files another property's rule under a name of this property (shared engine, one verdict per property)"""
+
+    def __init__(self, R, old, new):
+        self._R, self._old, self._new = R, old, new
+
+    def _n(self, rule):
+        return self._new if rule == self._old else rule
+
+    def rule(self, name, *a, **k):
+        return self._R.rule(self._n(name), *a, **k)
+
+    def ok(self, rule, *a, **k):
+        return self._R.ok(self._n(rule), *a, **k)
+
+    def violation(self, rule, *a, **k):
+        return self._R.violation(self._n(rule), *a, **k)
+
+    def anchor_missing(self, rule, *a, **k):
+        return self._R.anchor_missing(self._n(rule), *a, **k)
+
+    def __getattr__(self, name):
+        return getattr(self._R, name)
+
+
 def run(P, R, tier):
     R.undecided += ["(d) observable equality over all cut points of the input (behavioural)"]
+    # "the same component list": the cache of the component list is invalidated by every call before the engine runs and refreshed on
+    # demand (shared with C14.components)
+    from . import c14 as C14
+    C14.component_rules(P, _Renamed(R, "C14.components", "C04.components"), None, None)
     tab = load_table("c04_percall.json")
     R.table("c04_percall.json", tab)
     cg = callgraph(P)
